@@ -14,8 +14,8 @@ Open Scope Z_scope.
 Definition exec_spec (C : circuit) (n : nat) (A : cfg) : Prop :=
   forall s s1 s2 r,
     Clean C s -> preprocess (build C n) A s = Some s1 ->
-    execute_query (build C n) (sort_abs A) s1 = (s2, r) ->
-    r = MCA C n A /\ (0 < r -> temps_ok (sort_abs A) C (temps s2)) /\ Clean C s2.
+    execute_query (build C n) (enum_key A) s1 = (s2, r) ->
+    r = MCA C n A /\ (0 < r -> temps_ok (enum_key A) C (temps s2)) /\ Clean C s2.
 
 Definition out_of_range (n : nat) (A : cfg) : Prop := exists l, In l A /\ Z.of_nat n < Z.abs l.
 
@@ -49,6 +49,9 @@ Qed.
 Lemma EO_perm A A' C i : Permutation A A' -> EO A C i = EO A' C i.
 Proof. intros HP. unfold EO. apply filter_ext. intros c. now apply okA_perm. Qed.
 
+Lemma EO_same_set A A' C i : same_set A A' -> EO A C i = EO A' C i.
+Proof. intros HS. unfold EO. apply filter_ext. intros c. now apply okA_same_set. Qed.
+
 Section Page.
 Variables (C : circuit) (n : nat).
 Hypothesis HWF : WF C n.
@@ -70,19 +73,19 @@ Qed.
 Lemma enumerate_unfold A amount cur s :
   in_range n A -> exec_spec C n A -> Clean C s -> amount <> 0 ->
   let c := MCA C n A in
-  let p := cur_get cur (sort_abs A) in
+  let p := cur_get cur (enum_key A) in
   let stop := Z.min c (p + amount) in
   exists s2, Clean C s2 /\
     enumerate d A amount cur s =
     (if 0 <? c
-     then (s2, cur_set cur (sort_abs A) (stop mod c),
+     then (s2, cur_set cur (enum_key A) (stop mod c),
            Some (map sort_abs (enumerate_node d (temps s2) (length C) p stop (root C))))
      else (s2, cur, None)) /\
-    (0 < c -> temps_ok (sort_abs A) C (temps s2)).
+    (0 < c -> temps_ok (enum_key A) C (temps s2)).
 Proof.
   intros HA Hex Hcl Ham c p stop.
   destruct (preprocess_Some C n A s HA) as [s1 Hs1].
-  destruct (execute_query d (sort_abs A) s1) as [s2 r] eqn:Hq.
+  destruct (execute_query d (enum_key A) s1) as [s2 r] eqn:Hq.
   destruct (Hex s s1 s2 r Hcl Hs1 Hq) as (Hr & Hts & Hcl2).
   fold c in Hr. subst r.
   exists s2. split; [exact Hcl2|]. split; [|exact Hts].
@@ -93,8 +96,9 @@ Proof.
   assert (Hrt : rt (build C n) s2 = c).
   { unfold rt, rootn. cbn [circ build]. fold (root C).
     rewrite Hts; [|apply root_lt; apply HWF|now apply (root_not_true C n)].
-    rewrite (countsA_MCA C n); [|exact HWF|eapply in_range_perm; [symmetry; apply sort_abs_perm|exact HA]].
-    apply MCA_perm. apply sort_abs_perm. }
+    rewrite (countsA_MCA C n);
+      [|exact HWF|eapply in_range_same_set; [apply same_set_sym, enum_key_In|exact HA]].
+    apply MCA_same_set. apply enum_key_In. }
   rewrite Hrt. reflexivity.
 Qed.
 
@@ -102,23 +106,23 @@ Qed.
 Theorem enumerate_page A amount cur s :
   in_range n A -> exec_spec C n A -> Clean C s -> 0 < amount ->
   let c := MCA C n A in
-  let p := cur_get cur (sort_abs A) in
+  let p := cur_get cur (enum_key A) in
   let stop := Z.min c (p + amount) in
   0 < c -> 0 <= p < c ->
   exists s2, Clean C s2 /\
     enumerate d A amount cur s =
-    (s2, cur_set cur (sort_abs A) (stop mod c), Some (map sort_abs (slice p stop (EOr A)))).
+    (s2, cur_set cur (enum_key A) (stop mod c), Some (map sort_abs (slice p stop (EOr A)))).
 Proof.
   intros HA Hex Hcl Ham c p stop Hc Hp.
   destruct (enumerate_unfold A amount cur s HA Hex Hcl ltac:(lia)) as (s2 & Hcl2 & He & Hts).
   exists s2. split; [exact Hcl2|]. rewrite He. fold c. specialize (Hts Hc).
   replace (0 <? c) with true by (symmetry; now apply Z.ltb_lt).
   fold p. fold stop. f_equal. f_equal. f_equal.
-  assert (HP : Permutation (sort_abs A) A) by apply sort_abs_perm.
-  unfold EOr. rewrite <- (EO_perm (sort_abs A) A C (root C) HP).
-  assert (Hlen : Z.of_nat (length (EO (sort_abs A) C (root C))) = c).
-  { rewrite (EO_perm (sort_abs A) A C (root C) HP). now apply EOr_length. }
-  apply (enumerate_node_slice d (sort_abs A) (temps s2)); cbn [circ d build].
+  assert (HP : same_set (enum_key A) A) by apply enum_key_In.
+  unfold EOr. rewrite <- (EO_same_set (enum_key A) A C (root C) HP).
+  assert (Hlen : Z.of_nat (length (EO (enum_key A) C (root C))) = c).
+  { rewrite (EO_same_set (enum_key A) A C (root C) HP). now apply EOr_length. }
+  apply (enumerate_node_slice d (enum_key A) (temps s2)); cbn [circ d build].
   - apply HWF.
   - exact Hts.
   - exact Hor.
@@ -133,11 +137,11 @@ Qed.
 Corollary enumerate_page_cursor A amount cur s s2 cur2 r :
   in_range n A -> exec_spec C n A -> Clean C s -> 0 < amount ->
   let c := MCA C n A in
-  let p := cur_get cur (sort_abs A) in
+  let p := cur_get cur (enum_key A) in
   0 < c -> 0 <= p < c ->
   enumerate d A amount cur s = (s2, cur2, r) ->
-  cur_get cur2 (sort_abs A) = Z.min c (p + amount) mod c /\
-  (forall k, k <> sort_abs A -> cur_get cur2 k = cur_get cur k).
+  cur_get cur2 (enum_key A) = Z.min c (p + amount) mod c /\
+  (forall k, k <> enum_key A -> cur_get cur2 k = cur_get cur k).
 Proof.
   intros HA Hex Hcl Ham c p Hc Hp He.
   destruct (enumerate_page A amount cur s HA Hex Hcl Ham Hc Hp) as (s2' & _ & He').
@@ -250,16 +254,16 @@ Hypothesis HWF : WF C n.
 Hypothesis Hn : (0 < n)%nat.
 Hypothesis Hor : or_no_true_child C = true.
 Hypothesis HA : in_range n A.
-Hypothesis HND : NoDup (map Z.abs A).
-(* the literals may be given in any order from call to call *)
-Hypothesis Hex : forall A', Permutation A A' -> exec_spec C n A'.
+(* the literals may be given in any order, any literal any number of times, from call to call *)
+Hypothesis Hex : forall A', same_set A A' -> exec_spec C n A'.
 
 Let d := build C n.
 Let c := MCA C n A.
-Let K := sort_abs A.
+Let K := enum_key A.
 Let E := EOr C A.
 
-Definition req_ok (r : cfg * Z) : Prop := Permutation A (fst r) /\ 0 <= snd r.
+(* a request for the same SET of literals (since F19 the cursor key is the set) *)
+Definition req_ok (r : cfg * Z) : Prop := same_set A (fst r) /\ 0 <= snd r.
 
 Theorem pages_run reqs : forall cur s,
   Clean C s -> Forall req_ok reqs -> 0 < c ->
@@ -275,10 +279,11 @@ Proof.
   induction reqs as [|[A' k] reqs IH]; intros cur s Hcl Hreq Hc p Hp.
   - exists cur, s. cbn [run_pages map spec_pages spec_pos fold_left]. auto.
   - inversion Hreq as [|? ? [HP Hk] Hreq']; subst. cbn [fst snd] in HP, Hk.
-    assert (HK : sort_abs A' = K) by (symmetry; now apply sort_abs_perm_eq).
-    assert (HcA : MCA C n A' = c) by (symmetry; now apply MCA_perm).
-    assert (HEA : EOr C A' = E) by (symmetry; now apply EO_perm).
-    assert (HA' : in_range n A') by (now apply (in_range_perm n A A')).
+    assert (HK : enum_key A' = K).
+    { symmetry. apply enum_key_same_set; [|exact HP]. now apply (sat_consistent C n). }
+    assert (HcA : MCA C n A' = c) by (symmetry; now apply MCA_same_set).
+    assert (HEA : EOr C A' = E) by (symmetry; now apply EO_same_set).
+    assert (HA' : in_range n A') by (now apply (in_range_same_set n A A')).
     cbn [run_pages map snd spec_pages spec_pos fold_left].
     fold (spec_pos c (next_pos c p k) (map snd reqs)).
     assert (Hstep : exists s2 cur2, Clean C s2 /\
@@ -490,11 +495,11 @@ Proof.
   intros HWF s s1 s2 r Hcl Hpre Hq.
   unfold preprocess in Hpre. cbn [existsb fold_left cnts circ build nv] in Hpre.
   inversion Hpre; subst s1; clear Hpre.
-  cbn [sort_abs fold_right execute_query] in Hq. inversion Hq; subst s2 r; clear Hq.
+  cbn [enum_key dedup sort_abs fold_right execute_query] in Hq. inversion Hq; subst s2 r; clear Hq.
   split; [|split].
   - unfold rc, rootn. cbn [cnts circ build]. fold (root C).
     rewrite <- root_count_nth, (count_is_MC C n HWF). unfold MC, MCA. now rewrite ModelsA_nil.
-  - intros _ i Hi Hnt. cbn [temps sort_abs fold_right]. change (countsA [] C) with (counts C).
+  - intros _ i Hi Hnt. cbn [temps enum_key dedup sort_abs fold_right]. change (countsA [] C) with (counts C).
     apply hide_true_nth. intros Hin. apply Hnt.
     assert (Ht : is_true_node (build C n) i = true).
     { unfold is_true_node. apply existsb_exists. exists i. split; [exact Hin|apply Nat.eqb_refl]. }
@@ -507,8 +512,11 @@ Qed.
 Lemma in_range_nil n : in_range n [].
 Proof. intros l []. Qed.
 
-Lemma exec_spec_perm_nil C n : WF C n -> forall A', Permutation [] A' -> exec_spec C n A'.
-Proof. intros HWF A' HP. apply Permutation_nil in HP. subst. now apply exec_spec_nil. Qed.
+Lemma exec_spec_perm_nil C n : WF C n -> forall A', same_set [] A' -> exec_spec C n A'.
+Proof.
+  intros HWF A' HS. destruct A' as [|x A']; [now apply exec_spec_nil|].
+  exfalso. apply (proj2 (HS x)). now left.
+Qed.
 
 Theorem enumerate_page_nil C n : WF C n -> (0 < n)%nat -> or_no_true_child C = true ->
   forall amount cur s, Clean C s -> 0 < amount ->
@@ -532,7 +540,7 @@ Theorem pages_cycle_nil C n : WF C n -> (0 < n)%nat -> or_no_true_child C = true
     Permutation (pages_of rs) (Models C n) /\ NoDup (pages_of rs) /\ cur_get cur' [] = 0.
 Proof.
   intros HWF Hn Hor reqs cur s Hcl Hreq Hc Hp Hs.
-  destruct (pages_cycle C n [] HWF Hn Hor (in_range_nil n) (NoDup_nil _) (exec_spec_perm_nil C n HWF)
+  destruct (pages_cycle C n [] HWF Hn Hor (in_range_nil n) (exec_spec_perm_nil C n HWF)
                         reqs cur s Hcl Hreq Hc Hp Hs) as (rs & cur' & s' & H1 & _ & H2 & H3 & H4).
   exists rs, cur', s'. rewrite ModelsA_nil in H2. auto.
 Qed.
@@ -551,11 +559,11 @@ Qed.
 Definition exec_okb (C : circuit) (n : nat) (A : cfg) : bool :=
   match preprocess (build C n) A (fresh_scratch C) with
   | Some s1 =>
-    let '(s2, r) := execute_query (build C n) (sort_abs A) s1 in
+    let '(s2, r) := execute_query (build C n) (enum_key A) s1 in
     (r =? MCA C n A)
     && (negb (0 <? r)
         || forallb (fun i => is_TrueN (nth i C FalseN)
-                             || (nth i (temps s2) 0 =? nth i (countsA (sort_abs A) C) 0))
+                             || (nth i (temps s2) 0 =? nth i (countsA (enum_key A) C) 0))
                    (seq 0 (length C)))
     && forallb negb (marks s2) && match mdl s2 with [] => true | _ => false end
   | None => true
